@@ -85,6 +85,8 @@ Section Generic.
   Notation ref := (ref blk nxt).
   Notation ref_out := (ref_out blk nxt).
   Notation ref_st := (ref_st blk nxt).
+  Lemma lt64 : (0 < 64)%nat. Proof. lia. Qed.
+  Definition ref_app64 := ref_app 64 lt64 blk blk_len nxt.
 
   Lemma ks_chunks_str : forall cs c,
     ks_chunks ksblock key iv12 c cs = str_chunks blk nxt c cs.
@@ -419,10 +421,10 @@ Section Generic.
 
   Lemma st_after_app : forall P s,
     st_after (P ++ s) = ref_st (fst (st_after P)) (snd (st_after P)) s.
-  Proof. intros. unfold st_after, StreamLemmas.ref_st. rewrite ref_app. reflexivity. Qed.
+  Proof. intros. unfold st_after, StreamLemmas.ref_st. rewrite ref_app64. reflexivity. Qed.
 
   Lemma ref_out_app : forall P s, ref_out 0 [] (P ++ s) = ref_out 0 [] P ++ out_of P s.
-  Proof. intros. unfold out_of, st_after, StreamLemmas.ref_out at 1. rewrite ref_app. reflexivity. Qed.
+  Proof. intros. unfold out_of, st_after, StreamLemmas.ref_out at 1. rewrite ref_app64. reflexivity. Qed.
 
   Lemma ct_of_app : forall dir P s,
     ct_of dir (P ++ s) = ct_of dir P ++ match dir with Enc => out_of P s | Dec => s end.
@@ -490,4 +492,119 @@ Section Generic.
       + destruct Hfr as (_ & _ & _ & _ & E & _). rewrite E, F2. cbn. exact Hal.
   Qed.
 
+
+  (* ---------- init ---------- *)
+  Lemma st_after_nil : st_after [] = (0%N, []).
+  Proof. reflexivity. Qed.
+
+  Lemma init_direct_inv : forall dir ctx0, length (c_scratch ctx0) = 16%nat ->
+    inv dir (init_direct key ctx0 iv aad) [].
+  Proof.
+    intros dir ctx0 Hs. unfold ChachaStream.init_direct, inv, ks_rel, poly_core, ChachaStream.paead_update_ctx.
+    rewrite st_after_nil.
+    cbn [c_iv c_lbc c_rks c_last_ks c_poly_key c_scratch c_rct c_hash c_hash_len c_aad_len
+         set_hash set_aad_len set_hash_len set_lbc set_rks set_rct set_iv set_poly_key fst snd length].
+    repeat split; try reflexivity; try lia; try assumption.
+    - intro H. congruence.
+    - exists [], []. destruct dir; cbn; repeat split; try lia; apply mult16_0.
+  Qed.
+
+  (* ---------- a list of updates ---------- *)
+  Lemma out_of_app : forall P a b, out_of P (a ++ b) = out_of P a ++ out_of (P ++ a) b.
+  Proof.
+    intros. unfold out_of at 1 2. unfold StreamLemmas.ref_out. rewrite ref_app64. cbn [fst].
+    unfold out_of. rewrite st_after_app. reflexivity.
+  Qed.
+
+  Lemma out_of_nil : forall P, out_of P [] = [].
+  Proof. reflexivity. Qed.
+
+  Lemma update_all_inv : forall dir segs ctx P,
+    inv dir ctx P -> N.of_nat (length (concat segs)) < 2 ^ 64 ->
+    inv dir (fst (update_all key ctx segs dir)) (P ++ concat segs) /\
+    concat (snd (update_all key ctx segs dir)) = out_of P (concat segs) /\
+    map (@length _) (snd (update_all key ctx segs dir)) = map (@length _) segs.
+  Proof.
+    intros dir segs. induction segs as [|s t IH]; intros ctx P Hinv Hlen.
+    - cbn. rewrite app_nil_r. auto.
+    - cbn [ChachaStream.update_all concat] in *. rewrite app_length in Hlen.
+      destruct (update_direct_inv dir ctx P s Hinv ltac:(lia)) as [Hi Ho].
+      destruct (update_direct key ctx s dir) as [ctx1 o]. cbn [fst snd] in *.
+      specialize (IH ctx1 (P ++ s) Hi ltac:(lia)). destruct IH as (I1 & I2 & I3).
+      destruct (update_all key ctx1 t dir) as [ctx2 os]. cbn [fst snd concat map] in *.
+      rewrite app_assoc. split; [assumption|]. split.
+      + rewrite out_of_app, I2, Ho. reflexivity.
+      + rewrite I3, Ho, out_of_length. reflexivity.
+  Qed.
+
+  (* ---------- finalize ---------- *)
+  Definition tag_of (ct : bytes) : bytes :=
+    pfinish pk (paead_update pk (paead_update pk h0 ct) (le64 (len64 aad) ++ le64 (len64 ct))).
+
+  Lemma ct_of_length : forall dir P, length (ct_of dir P) = length P.
+  Proof. intros [] P; [apply ref_out_length|reflexivity]. Qed.
+
+  Lemma finish_tag_spec : forall ctx ct, c_poly_key ctx = pk -> c_hash ctx = paead_update pk h0 ct ->
+    c_aad_len ctx = len64 aad -> c_hash_len ctx = len64 ct ->
+    snd (finish_tag ctx) = tag_of ct /\ sgl_ctx_clean (fst (finish_tag ctx)).
+  Proof.
+    intros ctx ct Hpk Hh Ha Hl. unfold ChachaStream.finish_tag, tag_of, ChachaStream.paead_update_ctx, sgl_ctx_clean.
+    cbn. rewrite Hpk, Hh, Ha, Hl. auto.
+  Qed.
+
+  Lemma finalize_direct_spec : forall dir ctx P taglen, inv dir ctx P ->
+    snd (finalize_direct ctx taglen) = firstn taglen (tag_of (ct_of dir P)) /\
+    sgl_ctx_clean (fst (finalize_direct ctx taglen)).
+  Proof.
+    intros dir ctx P taglen (Hks & (Hpk & Hs & cw & cr & Hct & Hcw & Hcr & Hrct & Hscr & Hh) & Hhl & Hal).
+    unfold ChachaStream.finalize_direct.
+    set (ctx1 := if 0 <? c_rct ctx then _ else ctx).
+    assert (H1 : c_poly_key ctx1 = pk /\ c_hash ctx1 = paead_update pk h0 (ct_of dir P) /\
+                 c_aad_len ctx1 = len64 aad /\ c_hash_len ctx1 = len64 (ct_of dir P)).
+    { subst ctx1. destruct (N.ltb_spec 0 (c_rct ctx)) as [Hpos|Hz].
+      - unfold ChachaStream.paead_update_ctx. cbn. rewrite Hrct at 1. unfold len64 at 1. rewrite Nat2N.id, Hscr.
+        rewrite Hpk, Hh, Hct. rewrite pupd_app by assumption.
+        rewrite <- Hct. repeat split; try assumption. rewrite Hhl. unfold len64. rewrite ct_of_length. reflexivity.
+      - assert (cr = []) by (destruct cr; [reflexivity|rewrite Hrct in Hz; unfold len64 in Hz; simpl in Hz; lia]).
+        subst cr. rewrite app_nil_r in Hct. rewrite Hct. repeat split; try assumption.
+        rewrite Hhl, <- Hct. unfold len64. rewrite ct_of_length. reflexivity. }
+    destruct H1 as (A & B & C & D).
+    destruct (finish_tag_spec ctx1 (ct_of dir P) A B C D) as [T1 T2].
+    destruct (finish_tag ctx1) as [ctx2 tg]. cbn [fst snd] in *. rewrite T1. auto.
+  Qed.
+
+  (* ---------- the three ways of driving the state machine ---------- *)
+  Theorem run_direct_gen : forall ctx0 dir segs taglen,
+    length (c_scratch ctx0) = 16%nat -> N.of_nat (length (concat segs)) < 2 ^ 64 ->
+    let '(ctx', os, t) := run_direct ctx0 key iv aad dir segs taglen in
+    concat os = ref_out 0 [] (concat segs) /\
+    map (@length _) os = map (@length _) segs /\
+    t = firstn taglen (tag_of (ct_of dir (concat segs))) /\
+    sgl_ctx_clean ctx'.
+  Proof.
+    intros ctx0 dir segs taglen Hs Hlen. unfold ChachaStream.run_direct.
+    pose proof (init_direct_inv dir ctx0 Hs) as Hi.
+    destruct (update_all_inv dir segs _ [] Hi Hlen) as (I1 & I2 & I3).
+    destruct (update_all key (init_direct key ctx0 iv aad) segs dir) as [ctx1 os]. cbn [fst snd app] in *.
+    destruct (finalize_direct_spec dir ctx1 (concat segs) taglen I1) as [F1 F2].
+    destruct (finalize_direct ctx1 taglen) as [ctx2 t]. cbn [fst snd] in *.
+    split; [rewrite I2; reflexivity|]. split; [assumption|]. split; assumption.
+  Qed.
+
+  Theorem run_job_all_gen : forall ctx0 dir segs,
+    length (c_scratch ctx0) = 16%nat -> N.of_nat (length (concat segs)) < 2 ^ 64 ->
+    let '(ctx', os, t) := run_job_all ctx0 key iv aad dir segs in
+    concat os = ref_out 0 [] (concat segs) /\
+    map (@length _) os = map (@length _) segs /\
+    t = Some (firstn 16 (tag_of (ct_of dir (concat segs)))) /\
+    sgl_ctx_clean ctx'.
+  Proof.
+    intros ctx0 dir segs Hs Hlen. unfold ChachaStream.run_job_all, ChachaStream.aead_sgl.
+    pose proof (run_direct_gen ctx0 dir segs 16 Hs Hlen) as H. unfold ChachaStream.run_direct in H.
+    destruct (update_all key (init_direct key ctx0 iv aad) segs dir) as [ctx1 os].
+    destruct (finalize_direct ctx1 16) as [ctx2 t].
+    destruct H as (H1 & H2 & H3 & H4).
+    split; [assumption|]. split; [assumption|]. split; [rewrite H3; reflexivity|].
+    destruct H4. split; reflexivity.
+  Qed.
 End Generic.
